@@ -16,6 +16,7 @@ MANIFEST = {
     'note': 'Trusted: exactness of IEEE scaling by powers of two and of negation. sift_thresh is scaled with the signal. Guard-band exclusions are reported per interpolation method; PCHIP full-sift comparisons beyond the first IMF are mostly excluded (flat envelope edges make later extrema rounding-level).',
     'technique': 'metamorphic runtime oracle (transform input, compare outputs of the real functions), exact + guarded-tolerance',
 }
+LOGGER_ON_ODD_SHARDS = 'quarter'   # (sifting logs heavily: a quarter of the shards run with the logger set up)
 BUDGET_S = {'quick': 75, 'thorough': 480}
 NCASES = {'quick': 1800, 'thorough': 30000}
 RULE = ('seeded random oscillatory signals (noise, walks, multi-tone+trend, AM/FM, integer-valued; n 16..300) x stop rule x '
